@@ -420,6 +420,45 @@ Proof.
   unfold ginv, base, new_sniffer; proj. cbn [length]. rewrite Nat.sub_0_r. auto.
 Qed.
 
+(* ---------- lastErr through Listener.serve *)
+Lemma read_full_linv sc0 fx : forall fuel want s d e s',
+  sn_sniffing s = true -> linv sc0 s -> read_full fx fuel want s = RFOk d e s' ->
+  linv sc0 s' /\ sn_sniffing s' = true.
+Proof.
+  induction fuel as [|f IH]; intros want s d e s' Hsn Hl H.
+  - destruct want; [injection H as _ _ <-; auto | discriminate].
+  - destruct want as [|w]; [injection H as _ _ <-; auto|].
+    cbn [read_full] in H.
+    destruct (sniffer_read fx (S w) s) as [r s1] eqn:ER.
+    destruct (linv_read _ _ _ _ _ _ Hsn Hl ER) as [Hl1 Hsn1].
+    destruct r as [d0 e0|]; [|discriminate].
+    destruct (negb (Z.eqb e0 0) || Nat.leb (S w) (length d0)).
+    + injection H as _ _ <-. auto.
+    + destruct (read_full fx f (S w - length d0) s1) as [d2 e2 s2| |] eqn:ERF; try discriminate.
+      injection H as _ _ <-. eapply IH; eauto.
+Qed.
+
+Lemma try_matchers_final sc0 fx : forall tables i s d s',
+  base (stream sc0) s -> linv sc0 s -> try_matchers fx i tables s = (d, s') ->
+  match d with
+  | DSvc _ => exists s2, s' = reset false s2 /\ base (stream sc0) s2 /\ linv sc0 s2
+  | _ => True
+  end.
+Proof.
+  induction tables as [|t ts IH]; intros i s d s' Hb Hl H; cbn [try_matchers] in H.
+  - injection H as <- _. exact I.
+  - pose proof (minv_start _ _ Hb) as Hi.
+    destruct (read_full_minv (stream sc0) fx (rf_fuel (max_depth t) (reset true s)) (max_depth t) _ _ Hi)
+      as (seen & e & s2 & ERF & Hi2 & _).
+    { unfold rf_fuel. lia. }
+    cbv zeta in H. rewrite ERF in H.
+    assert (sn_sniffing (reset true s) = true) as Hsn by reflexivity.
+    destruct (read_full_linv sc0 fx _ _ _ _ _ _ Hsn (linv_reset sc0 true _ Hl) ERF) as [Hl2 _].
+    destruct (tree_match_prefix t seen).
+    + injection H as <- <-. exists s2. split; [reflexivity|]. split; [eapply minv_base; exact Hi2 | exact Hl2].
+    + eapply IH; [eapply minv_base; exact Hi2 | exact Hl2 | exact H].
+Qed.
+
 (* ---------- the oracle applied to the implementation accepts the model *)
 Lemma decision_eqb_refl d : decision_eqb d d = true.
 Proof. destruct d; cbn; auto using Nat.eqb_refl. Qed.
@@ -442,7 +481,10 @@ Proof.
   - destruct (service_reads true svc s) as [rs s'] eqn:ER.
     unfold ok_serve. rewrite Hsound, Hcl. cbn [andb dec_closed dec_handed negb Nat.eqb].
     destruct (service_reads_ok (stream sc) svc _ _ _ _ Hs ER) as (Hok & _).
-    unfold ok_service. cbn [length] in Hok. rewrite Hok, andb_true_r.
+    destruct (try_matchers_final sc true tables O _ _ _ (base_new _ sc eq_refl) (linv_new sc) EM)
+      as (s2 & -> & Hb2 & Hl2).
+    pose proof (service_reads_errs_ok sc svc _ _ _ _ Hs (slinv_start sc _ Hb2 Hl2) ER) as Herr.
+    unfold ok_service. cbn [length] in Hok, Herr. rewrite Hok, Herr, !andb_true_r.
     destruct Hs as (_ & Hst & _). cbn [app] in Hst. apply Nat.leb_le.
     rewrite <- Hst, app_length. unfold remaining. lia.
   - unfold ok_serve. rewrite Hsound, Hcl. reflexivity.
@@ -687,4 +729,24 @@ Proof.
     assert (stream (sn_src s') = []) as Hn by (apply length_zero_iff_nil; lia).
     rewrite Hp, Hn, !app_nil_r in Heq. exact Heq.
   - rewrite Hp, Hn in Heq. cbn in Heq. rewrite !app_nil_r in Heq. exact Heq.
+Qed.
+
+(* the same behind Listener.serve: a sniff deadline that fired while the
+   matchers were reading (an error with no bytes), followed by more data, is
+   not handed to the service with the replayed bytes *)
+Theorem mux_sniff_timeout_not_replayed : forall tables sc svc d rem0 rs,
+  tables_wf tables = true -> data_errfree sc = true ->
+  mux_run true tables sc svc = (d, rem0, rs) ->
+  Forall (fun e => e = 0) (replayed_errs (length (stream sc)) 0 (length (stream sc) - rem0) rs).
+Proof.
+  intros tables sc svc d rem0 rs Hwf Hd H.
+  pose proof (serve_model_passes tables sc svc Hwf) as Hok. rewrite H in Hok.
+  assert (match d with DSvc _ => True | _ => rs = [] end) as Hrs.
+  { unfold mux_run in H. destruct (mux_serve true tables sc) as [d0 s0].
+    destruct d0; [destruct (service_reads true svc s0)|..]; injection H as <- _ <-; exact I || reflexivity. }
+  destruct d; try (rewrite Hrs; constructor).
+  unfold ok_serve, ok_service in Hok.
+  apply andb_true_iff in Hok as [_ Hok]. apply andb_true_iff in Hok as [_ Hok].
+  apply andb_true_iff in Hok as [_ Hok].
+  eapply ok_errs_replayed_zero; [apply aerr_data_errfree; exact Hd | exact Hok].
 Qed.
